@@ -99,24 +99,25 @@ type miEnt struct {
 }
 
 type obsRec struct {
-	Case    caseRec   `json:"case"`
-	Started bool      `json:"started"`
-	Phase   string    `json:"phase"` // where a failed launch failed ("" when started)
-	Err     string    `json:"err"`
-	Exit    int       `json:"exit"`
-	Cwd     string    `json:"cwd"`
-	Tree    []treeEnt `json:"tree"`
-	Trunc   bool      `json:"trunc"`
-	OldRoot int       `json:"oldroot"`
-	DotDot  bool      `json:"dotdot"`
-	Canary  []string  `json:"canary"`
-	Masks   []maskRes `json:"masks"`
-	Tests   []testRes `json:"tests"`
-	Mi      []miEnt   `json:"mi"`     // /proc/<pid>/mountinfo read by the driver just before exec
-	HasMiIn bool      `json:"hasmiin"`
-	MiIn    []miEnt   `json:"miin"`   // /proc/self/mountinfo read by the probe (when proc is mounted)
-	SrcFl   []string  `json:"srcfl"`  // statfs flags of the ordinary source directory (host fact)
-	LockFl  []string  `json:"lockfl"` // statfs flags of the "locked" source directory (host fact)
+	Case     caseRec   `json:"case"`
+	Started  bool      `json:"started"`
+	Attempts int       `json:"attempts"` // failed launch attempts before this record
+	Phase    string    `json:"phase"`    // where a failed launch failed ("" when started)
+	Err      string    `json:"err"`
+	Exit     int       `json:"exit"`
+	Cwd      string    `json:"cwd"`
+	Tree     []treeEnt `json:"tree"`
+	Trunc    bool      `json:"trunc"`
+	OldRoot  int       `json:"oldroot"`
+	DotDot   bool      `json:"dotdot"`
+	Canary   []string  `json:"canary"`
+	Masks    []maskRes `json:"masks"`
+	Tests    []testRes `json:"tests"`
+	Mi       []miEnt   `json:"mi"` // /proc/<pid>/mountinfo read by the driver just before exec
+	HasMiIn  bool      `json:"hasmiin"`
+	MiIn     []miEnt   `json:"miin"`   // /proc/self/mountinfo read by the probe (when proc is mounted)
+	SrcFl    []string  `json:"srcfl"`  // statfs flags of the ordinary source directory (host fact)
+	LockFl   []string  `json:"lockfl"` // statfs flags of the "locked" source directory (host fact)
 	// which of the maskable procfs entries exist on this kernel (host fact, from the host's /proc)
 	ProcFacts []treeEnt `json:"procfacts"`
 }
@@ -709,16 +710,19 @@ func runMain(args []string) error {
 			for j := range jobs {
 				var o obsRec
 				var err error
-				// a set-up failure that is not the sandbox's own is retried once
-				for attempt := 0; attempt < 2; attempt++ {
+				// A launch that does not start is tried again: under load the container's own 3 s
+				// ping deadline and transient clone/exec errors hit; a failure the code produces
+				// deterministically for this table stays and is reported with its last error.
+				for attempt := 0; attempt < 3; attempt++ {
 					if j.c.Impl == "fork" {
 						o, err = e.runFork(j.c)
 					} else {
 						o, err = e.runCont(j.c)
 					}
-					if err == nil {
+					if err == nil && o.Started {
 						break
 					}
+					o.Attempts = attempt + 1
 				}
 				mu.Lock()
 				if err != nil && firstErr == nil {
